@@ -26,7 +26,8 @@ mod time_format {
         D: Deserializer<'de>,
     {
         let s = String::deserialize(deserializer)?;
-        if s.len() != 4 {
+        // digits only: the slices below are byte offsets, and u32::parse would take a sign
+        if s.len() != 4 || !s.bytes().all(|b| b.is_ascii_digit()) {
             return Err(serde::de::Error::custom("Time must be 4 digits (HHMM)"));
         }
         let hours: u32 = s[0..2].parse().map_err(serde::de::Error::custom)?;
@@ -55,7 +56,7 @@ mod date_format {
         D: Deserializer<'de>,
     {
         let s = String::deserialize(deserializer)?;
-        if s.len() != 6 {
+        if s.len() != 6 || !s.bytes().all(|b| b.is_ascii_digit()) {
             return Err(serde::de::Error::custom("Date must be 6 digits (YYMMDD)"));
         }
 
